@@ -261,12 +261,12 @@ Proof.
   - unfold datashape at 1. rewrite map_length. rewrite <- HL.
     rewrite <- (map_nth_seq K O) at 1. rewrite map_map. apply map_ext_in. intros j Hj.
     apply in_seq in Hj.
-    assert (Hjl : (j < length bidx)%nat) by (rewrite <- HL; lia).
+    assert (Hjl : (j < length bidx)%nat) by (destruct Hj as [_ Hj]; simpl in Hj; exact (eq_ind _ (fun n => (j < n)%nat) Hj _ HL)).
     destruct (index_of_spec j axes 0 (Hcov j Hjl)) as (i & E & Hi & Hn).
     rewrite E. simpl. unfold pick.
     rewrite (nth_indep _ 0 (Z.of_nat O)) by (rewrite !map_length; auto).
     rewrite map_nth. f_equal.
-    rewrite (nth_indep _ O (nth O K O)) by (rewrite map_length; auto).
+    symmetry. rewrite (nth_indep (map (fun j0 : nat => nth j0 K O) axes) O (nth O K O)) by (rewrite map_length; auto).
     rewrite (map_nth (fun a => nth a K O)). rewrite Hn. reflexivity.
 Qed.
 
@@ -285,12 +285,12 @@ Lemma reorder_spec_l : forall bs bidx data axes K,
 Proof.
   intros bs bidx data axes K Hwf HN HK HA Hcov. cbv zeta.
   pose proof (asm_entry_at bs bidx data K Hwf HN HK) as E1. cbv zeta in E1.
-  split; [|exact E1]. rewrite E1. unfold reorder_asmatrix.
+  split; [|exact E1]. rewrite E1.
   pose proof (asm_entry_at (reorder_bs bs axes) (reorder_bidx bidx axes)
                 (transpose_data (datashape bidx) data axes) (pick O K axes)
                 (wf_pick _ _ _ Hwf HA) (NoDup_pick _ _ HN HA)) as E2.
-  cbv zeta in E2. unfold reorder_bidx at 2 3 in E2.
-  rewrite (sel_of_pick (0, 0) bidx K axes HK HA) in E2.
+  cbv zeta in E2. unfold reorder_asmatrix, reorder_bidx in *.
+  rewrite !(sel_of_pick (0, 0) bidx K axes HK HA) in E2.
   rewrite E2 by (apply cvalid_pick; auto).
-  apply transpose_data_at; auto.
+  apply (transpose_data_at bidx data axes K); auto.
 Qed.
